@@ -13,7 +13,7 @@ func init() {
 	register("C04",
 		"Structural necessary conditions of C04 decided from /repo's SSA: (modes) the tree-entry loop classifies an entry by (mode & 0170000) against git's constants 040000 tree, 0160000 gitlink, 0120000 symlink, everything else a blob; (arms) on every path through one loop iteration exactly one kind counter is bumped (dirs via the subtree's expansion, files, links, submodules), the path-depth and path-length maxima are each updated exactly once, a blob's size is added exactly where its file is counted, each update sits in the arm of its own mode constant, and the gitlink arm performs no object lookup — deferred listeners are credited to the branch that registers them; (combine) the seven per-tree quantities receive exactly the update edges of the recursive expansion (ADD per occurrence, MAX for depth/length, the tree itself counted at record creation) and nothing else; (maxima) each of the seven 'biggest checkout' metrics is the MAX of its own per-tree quantity, executed unconditionally once per finalised tree. Not decided: the numeric equality on concrete tree DAGs.",
 		[]string{"field-based heap model", "git's object-mode constants", "go/ssa models the source faithfully"},
-		ruleC04Modes, ruleC04Arms, ruleC04Combine, ruleC04Maxima, ruleC04FinalOnly, ruleC04Descend, ruleC04Roots, ruleC04NameBytes)
+		ruleC04Modes, ruleC04Arms, ruleC04Combine, ruleC04Maxima, ruleC04FinalOnly, ruleC04Descend, ruleC04Roots, ruleC04NameBytes, ruleC04Borrowed)
 }
 
 const (
@@ -427,4 +427,16 @@ func ruleC04NameBytes(c *Ctx) {
 	c.RuleAlias = map[string]string{"C16.grammar": "C04.arms"}
 	defer func() { c.RuleAlias = nil }()
 	c.checkTreeEntryExact()
+}
+
+// ruleC04Borrowed: clauses decided under other properties' names that the
+// checkout metrics depend on just as much: the pending counter must not wrap
+// (a wide tree would hand its parents a partial expansion), and every ROOT
+// argument must become a walked root (a dropped ROOT leaves all checkout
+// metrics at zero).
+func ruleC04Borrowed(c *Ctx) {
+	pendingWidth(c, "C04.final-only")
+	c.RuleAlias = map[string]string{"C01.rootset": "C04.roots"}
+	defer func() { c.RuleAlias = nil }()
+	ruleC01Rootset(c)
 }
